@@ -35,10 +35,16 @@ def _sub(**kw):
     return d
 
 
+# several TLC instances run side by side: keep each JVM's helper threads few; short jobs stay in the C1 compiler
+JVM_SMALL = {"JAVA_TOOL_OPTIONS": "-Xss64m -XX:ParallelGCThreads=2 -XX:TieredStopAtLevel=1"}
+JVM_BIG = {"JAVA_TOOL_OPTIONS": "-Xss64m -XX:ParallelGCThreads=4"}
+
+
 def _mc(ctx, tag, expect=None, **kw):
     # the negative configurations stop after a few hundred states: a few workers are enough
     return lib.run_tlc(ctx, "ReplayCache", "ReplayCache_mc.cfg", _sub(**kw), tag=tag, expect_violation=bool(expect),
-                       workers=4 if expect else max(4, lib.NCPU // 2), timeout=1500)
+                       workers=4 if expect else max(4, lib.NCPU // 2), timeout=1500,
+                       env=JVM_SMALL if expect else JVM_BIG)
 
 
 def _gen(ctx, tag, cex=False, simulate=None, depth=None, **kw):
@@ -46,7 +52,7 @@ def _gen(ctx, tag, cex=False, simulate=None, depth=None, **kw):
     s["CEX"] = "TRUE" if cex else "FALSE"
     s["INV"] = kw.get("INV", "TypeOK")
     r = lib.run_tlc(ctx, "ReplayCacheGen", "ReplayCacheGen.cfg", s, tag=tag, simulate=simulate, depth=depth,
-                    workers=1 if simulate else 4, timeout=1500)
+                    workers=1 if simulate else 4, timeout=1500, env=JVM_SMALL)
     lib.require_ok(r, tag)
     for b in r.behaviours:
         b["src"] = tag
@@ -72,6 +78,9 @@ def run(ctx):
         submit("mc_w3_faithful", _mc, W=3, R=6, SK=2, H=9)
         submit("mc_w3_tight_holds", _mc, W=3, R=4, SK=2, H=9)
         submit("neg_w3_retention_short", _mc, "AtMostOnce", W=3, R=3, SK=2, H=9, INV="TypeOK AtMostOnce")
+        # client clocks ahead by the whole window: the stamp is refused and consumed first, never accepted twice
+        submit("mc_skew_w", _mc, SK=2, INV="TypeOK AtMostOnce")
+        submit("mc_skew_w_tight", _mc, SK=2, R=2, INV="TypeOK AtMostOnce")
     submit("neg_cleaner_purges_all", _mc, "AtMostOnce", DEV='{"CleanerPurgesAll"}', INV="TypeOK AtMostOnce")
     submit("neg_cache_key_raw", _mc, "AtMostOnce", DEV='{"CacheKeyRaw"}', INV="TypeOK AtMostOnce")
     submit("neg_retention_short", _mc, "AtMostOnce", R=1, INV="TypeOK AtMostOnce")
@@ -87,7 +96,7 @@ def run(ctx):
         submit("bfs_r4_evict", _gen, INV="TypeOK AtMostOnce", NP=1, H=6, MP=3, MC=1)        # 12 096
         submit("bfs_r2_evict", _gen, INV="TypeOK AtMostOnce", R=2, NP=1, H=4, MP=3, MC=2)   #  9 864
         submit("bfs_2p", _gen, INV="TypeOK AtMostOnce", NP=2, H=2, MP=3, MC=1)              # 43 728
-        sims = [("sim_r4", 4, 4000), ("sim_r3", 3, 2000), ("sim_r2", 2, 4000)]
+        sims = [("sim_r4", 4, 3000), ("sim_r3", 3, 1500), ("sim_r2", 2, 3000)]
     for name, r_, num in sims:
         submit(name, _gen, INV="TypeOK AtMostOnce", R=r_, simulate=num, depth=60)
     # every counter-example history of the deviating models (bounded) - replayed on the code as well
@@ -166,18 +175,24 @@ def run(ctx):
     if gs.get("mismatch", 0) and not ctx.violations:
         raise lib.Inconclusive("model drift: on %d replay runs the code's accept/reject differs from ReplayCache "
                                "(Dev = {}) although the property held; notes: %s" % (gs["mismatch"], g.get("notes")))
+    if gs.get("nc_diff", 0) or gs.get("why_diff", 0):
+        ctx.notes.append("internal quantities differ from the model although accept/reject agrees: cache-entry count on %d "
+                         "steps, error class on %d steps (logged, not a verdict: e.g. a tree that does not let a refused "
+                         "packet consume its random)" % (gs.get("nc_diff", 0), gs.get("why_diff", 0)))
     for n in g.get("notes", []) + st.get("notes", []):
         ctx.notes.append(n)
 
     cov = {
         "evaluations": g["evaluations"] + st["evaluations"],
         "distinct_nontrivial": g["distinct_nontrivial"] + st["distinct_nontrivial"],
-        "rule": "histories = every maximal path of ReplayCacheGen for the small bounds (1 block, clock 0..3/4, 3 presentations "
-                "of either byte variant, <= 2 clean-ups at any phase, client skew -1..+1) + TLC -simulate paths of the "
-                "model-checked bounds (2 blocks, clock 0..8, 4 presentations, 2 clean-ups) + every counter-example history of "
-                "the three deviating models; each is run under %s of the 8 tick concretisations (counter-example histories: all 8), transports alternating; non-trivial = "
+        "rule": "histories = every maximal path of ReplayCacheGen for the small bounds (%s; either byte variant, clean-ups at "
+                "any phase, client skew -1..+1) + TLC -simulate paths of the model-checked bounds (2 blocks, clock 0..8, "
+                "4 presentations, 2 clean-ups) + every counter-example history of the three deviating models (same small "
+                "bounds); each is run under %s of the 8 tick concretisations (one-block counter-example histories: all 8), transports alternating; non-trivial = "
                 "a block is presented again after it was accepted (histories), an altered copy that still authenticates "
                 "on its own (variants), every gate/stress round; distinct = distinct action lists / alterations" % (
+                    "1 block: clock 0..3 x 3 presentations x 2 clean-ups, clock 0..4 x 3 x 1" if q else
+                    "1 block: clock 0..3 x 4 presentations x 2 clean-ups, 0..6 x 3 x 1, 0..4 x 3 x 2; 2 blocks: clock 0..2 x 3 x 1",
                     "2 (rotating)" if q else "4 (rotating)"),
         "samples": g["samples"] + st["samples"],
         "traces_validated_against_impl": int(gs.get("histories", 0)),
